@@ -336,7 +336,11 @@ pub fn last<T: AsRef<Path>>(path: T) -> RvResult<String> {
 /// assert_eq!(sys::mash("/foo", "/bar"), PathBuf::from("/foo/bar"));
 /// ```
 pub fn mash<T: AsRef<Path>, U: AsRef<Path>>(dir: T, base: U) -> PathBuf {
-    let base = trim_prefix(base, path::MAIN_SEPARATOR.to_string());
+    // Drop every leading separator so that the result always stays under `dir`
+    let mut base = base.as_ref().to_path_buf();
+    while base.has_prefix(path::MAIN_SEPARATOR.to_string()) {
+        base = trim_prefix(base, path::MAIN_SEPARATOR.to_string());
+    }
     let path = dir.as_ref().join(base);
     path.components().collect::<PathBuf>()
 }
